@@ -72,7 +72,7 @@ pub fn rl_runs(len: usize, runs: &Runs) -> RLVector {
     RLVector::from(b)
 }
 
-pub const PLAIN_ROUTES: [&str; 6] = ["raw", "push", "iter", "from_sparse", "from_rl", "copy_rl"];
+pub const PLAIN_ROUTES: [&str; 7] = ["raw", "push", "iter", "from_sparse", "from_rl", "copy_rl", "raw_shrunk"];
 pub const SPARSE_ROUTES: [&str; 5] = ["builder", "try_set", "extend", "from_plain", "from_rl"];
 pub const RL_ROUTES: [&str; 7] = ["runs", "bits", "split", "set_len_steps", "zero_runs", "from_plain", "from_sparse"];
 
@@ -82,6 +82,17 @@ pub fn build(kind: &str, route: &str, len: usize, runs: &Runs) -> AnyBv {
         "plain" => {
             let bv = match route {
                 "raw" => plain_raw(len, runs),
+                "raw_shrunk" => {
+                    // the raw vector was longer (integers and bits pushed across word boundaries) and is popped back
+                    use simple_sds::raw_vector::{PopRaw, PushRaw};
+                    let mut raw = RawVector::with_len(len, false);
+                    for p in positions(runs) { raw.set_bit(p, true); }
+                    unsafe { raw.push_int(u64::MAX, 64); raw.push_int(u64::MAX, 37); }
+                    for _ in 0..3 { raw.push_bit(true); }
+                    for _ in 0..3 { raw.pop_bit(); }
+                    unsafe { raw.pop_int(37); raw.pop_int(64); }
+                    BitVector::from(raw)
+                },
                 "push" => {
                     let mut raw = RawVector::new();
                     let mut next = 0;
